@@ -35,14 +35,14 @@ CasesOf(P) == IF P = <<>> THEN {[P |-> P, tip |-> Null, revno |-> 0, wtp |-> <<>
 TagSet(seq) == {<<seq[i].name, seq[i].rev>> : i \in DOMAIN seq}
 S0(x) == St(x.P, x.tip, x.revno, x.wtp, TagSet(x.tags), IF x.bound THEN x.tip ELSE 0, IF x.bound THEN x.revno ELSE 0)
 SpecRun(x) == Run(S0(x), x.bound, x.acts)
-FailedOnSpec(x) == LET r == SpecRun(x)
-                   IN BehaviourFailed([i \in DOMAIN r |-> r[i].P], x.bound, x.acts, [i \in DOMAIN r |-> AsObs(r[i])])
 
 VARIABLE c
 Init == c \in {[P |-> P, tip |-> -1] : P \in Graphs}
 Next == c.tip = -1 /\ c' \in CasesOf(c.P)
 IsCase == c.tip # -1
-LawsHoldOnSpec == IsCase => (\A i \in DOMAIN c.acts : Enabled(SpecRun(c)[i], c.acts[i])) /\ FailedOnSpec(c) = {}
+LawsHoldOnSpec == IsCase => LET r == SpecRun(c)
+                            IN /\ \A i \in DOMAIN c.acts : Enabled(r[i], c.acts[i])
+                               /\ BehaviourFailed([i \in DOMAIN r |-> r[i].P], c.bound, c.acts, [i \in DOMAIN r |-> AsObs(r[i])]) = {}
 \* anti-vacuity, evaluated by TLC at start-up: concrete cases with the documented answers, members of the case space
 \* whenever the bounds admit their graph
 InSpace(x) == (Len(x.P) \in MinRev..MaxRev /\ (~OneRoot \/ \A r \in 2..Len(x.P) : x.P[r] # <<>>)) =>
